@@ -17,5 +17,5 @@ Init == \E j \in 1..Len(Jobs.jobs) :
 
 Next == /\ ~done /\ done' = TRUE /\ UNCHANGED <<G, Inp, Cfg, job, ti>>
         /\ PrintT("RES " \o ToString(job) \o "." \o ToString(ti) \o " " \o
-                  ToJson([r |-> Parse(Jobs.jobs[job].start), u |-> Unspecified, lr |-> LeftRecursive # {}]))
+                  ToJson([r |-> Parse(Jobs.jobs[job].start), u |-> Unspecified, ua |-> UnspecifiedAcceptance, lr |-> LeftRecursive # {}]))
 =============================================================================
